@@ -7,6 +7,8 @@ use std::alloc::{GlobalAlloc, Layout, System};
 use std::cell::Cell;
 
 pub const ZONE: usize = 32;
+/// allocations with a larger alignment are passed through untracked (none occur in dashu)
+const MAXALIGN: usize = 16;
 const MAGIC: u64 = 0xD45B_A110_C8ED_600D;
 const FREED: u64 = 0xDEAD_F4EE_DEAD_F4EE;
 const CANARY: u8 = 0xA5;
@@ -97,14 +99,14 @@ pub unsafe fn header_of(p: *const u8) -> Option<(usize, usize)> {
 
 unsafe impl GlobalAlloc for Tracking {
     unsafe fn alloc(&self, layout: Layout) -> *mut u8 {
-        if layout.align() > ZONE {
+        if layout.align() > MAXALIGN {
             return System.alloc(layout);
         }
         let total = match layout.size().checked_add(2 * ZONE) {
             Some(t) => t,
             None => return std::ptr::null_mut(),
         };
-        let raw = System.alloc(Layout::from_size_align_unchecked(total, ZONE));
+        let raw = System.alloc(Layout::from_size_align_unchecked(total, MAXALIGN));
         if raw.is_null() {
             return raw;
         }
@@ -130,7 +132,7 @@ unsafe impl GlobalAlloc for Tracking {
     }
 
     unsafe fn dealloc(&self, ptr: *mut u8, layout: Layout) {
-        if layout.align() > ZONE {
+        if layout.align() > MAXALIGN {
             return System.dealloc(ptr, layout);
         }
         let raw = ptr.sub(ZONE);
@@ -188,12 +190,12 @@ unsafe impl GlobalAlloc for Tracking {
                     latch(F_WRITE_AFTER_FREE);
                 }
             }
-            System.dealloc(eraw, Layout::from_size_align_unchecked(esize + 2 * ZONE, ZONE));
+            System.dealloc(eraw, Layout::from_size_align_unchecked(esize + 2 * ZONE, MAXALIGN));
         }
     }
 
     unsafe fn realloc(&self, ptr: *mut u8, layout: Layout, new_size: usize) -> *mut u8 {
-        if layout.align() > ZONE {
+        if layout.align() > MAXALIGN {
             return System.realloc(ptr, layout, new_size);
         }
         // alloc + copy + dealloc, so the grown area carries the fill pattern and the old block
